@@ -920,6 +920,11 @@ class Problem(object, metaclass=ProblemMetaclass):
         lvec = self.model._vectors[lkind]['linear']
 
         rvec.set_val(0.)
+        # iterative linear solvers start from (and measure their convergence against) what the
+        # solution vector holds, so leftovers of earlier solves must not be in it.
+        lvec.set_val(0.)
+        if mode == 'rev':
+            self.model._dinputs.set_val(0.)
 
         # set seed values into dresids (fwd) or doutputs (rev)
         # seed may have keys that are inputs and must be converted into auto_ivcs
